@@ -57,7 +57,7 @@ def config(draw, retry_choices=(True,), rr_choices=(True,)):
         flaky = [list(p) for p in draw(st.lists(st.sampled_from([(w, x) for w in range(nw) for x in sorted(set(inputs))]), min_size=1, max_size=3, unique=True))]
     return {
         'workers': nw, 'inputs': inputs, 'extra': extra, 'kills': kills, 'kill_marker': draw(st.booleans()),
-        'poison': poison, 'refuse': refuse, 'flaky': flaky, 'linger': draw(st.integers(0, 3)) == 0, 'retry': retry,
+        'poison': poison, 'refuse': refuse, 'flaky': flaky, 'linger': draw(st.integers(0, 3)) == 0, 'linger_checks': draw(st.sampled_from([0, 0, 1, 2, 3, 5])), 'retry': retry,
         'return_results': draw(st.sampled_from(list(rr_choices))),
         'source': draw(st.sampled_from(['iter', 'iter', 'callable'])),
         'idsalt': draw(st.integers(0, 5)),
@@ -249,6 +249,9 @@ def simplify(case):
         yield c
     if case.get('linger'):
         c = dict(case); c['linger'] = False
+        yield c
+    if case.get('linger_checks'):
+        c = dict(case); c['linger_checks'] = case['linger_checks'] - 1
         yield c
     if case.get('source') == 'callable':
         c = dict(case); c['source'] = 'iter'
